@@ -16,7 +16,7 @@ NONTRIVIAL_RULE = (
     "keyed by (shard profile, decision vector). L1 leaves keyed by decision vector."
 )
 EXPLANATION = (
-    "Every body outcome at every nesting level (normal, raise caught j levels out) under 9 exception classes (incl. one whose str() raises a non-Exception BaseException) "
+    "Every body outcome at every nesting level (normal, raise caught j levels out) under 10 exception classes (incl. one whose str() raises a non-Exception BaseException and one with multiple inheritance) "
     "incl. BaseException subclasses, 27 extractor registrations along a 3-class MRO (absent/dict/raising) and "
     "repeated finish calls; oracle: exactly one start and one end per action, status failed iff an exception "
     "escaped, exception/reason/extractor fields, identity of the propagated exception, fields on the right message."
@@ -64,6 +64,8 @@ def _e1_shards(tier):
     profiles = [{}]
     profiles += [{"exc": i} for i in range(1, I.N_EXC)]
     profiles += [{"exc": 7, "ext": x} for x in range(27) if x != 2]
+    # multiple inheritance: the extractor of the nearest class in the MRO, not of the first base's ancestry
+    profiles += [{"exc": 10, "diamond": 1}, {"exc": 10, "diamond": 2}, {"exc": 10, "diamond": 1, "ext": 0}, {"exc": 10, "diamond": 1, "ext": 5}]
     profiles += [{"open": o, "exc": e} for o in range(1, I.N_OPEN) for e in (0, 3)]
     profiles += [{"fin": f, "exc": e} for f in (1, 2) for e in (0, 4)]
     profiles += [{"msgs": 1, "msg": 4, "exc": 7, "ext": x} for x in (1, 3, 9, 13)]
@@ -139,7 +141,7 @@ OBLIGATIONS = [
         shards=_e1_shards,
         twin=[{"N": 4, "D": 3, "twin_label": "two-failed"}],
         timeout={"quick": 100, "thorough": 900},
-        bounds={"quick": "open/close/raise(j) sequences <= 4 ops, depth <= 3; 9 exception classes; 27 extractor configurations for the 3-level user hierarchy (<= 3 ops), 8 configurations where further extractors are registered after the first failure; extractors returning keys named like the built-in failure fields; finish(exc) called inside the action's own context; actions that succeed while an unrelated exception is being handled; 6 open styles x {ValueError, KeyboardInterrupt}; extra finish()/finish(exc); tracebacks with raising extractors", "thorough": "<= 6 ops, depth <= 4"},
+        bounds={"quick": "open/close/raise(j) sequences <= 4 ops, depth <= 3; 10 exception classes; 4 extractor configurations over a diamond hierarchy; 27 extractor configurations for the 3-level user hierarchy (<= 3 ops), 8 configurations where further extractors are registered after the first failure; extractors returning keys named like the built-in failure fields; finish(exc) called inside the action's own context; actions that succeed while an unrelated exception is being handled; 6 open styles x {ValueError, KeyboardInterrupt}; extra finish()/finish(exc); tracebacks with raising extractors", "thorough": "<= 6 ops, depth <= 4"},
     ),
     Ob("L1", L1, body_L1, "S", desc="errno extracted by the stock OSError extractor reaches both failed ends unchanged for every int; start fields stay off the end messages", functions=["Action.finish", "safeunicode", "ErrorExtraction.get_fields_for_exception"], timeout={"quick": 120, "thorough": 300}, bounds={"quick": "errno any int, start field any int, two nested actions"}),
 ]
